@@ -153,10 +153,11 @@ add("C12", "translation_validation",
     "Exclusions of the property (descendants' tightenings of inherited list items, byte-array lengths) are excluded here, too. Corpus and bounds as C11.")
 
 add("C20", "model_checking",
-    "bounded symbolic execution (CrossHair/z3) of the docstring / documentation-comment wrappers of python, java, typescript, cpp and golang on a symbolic description text, against lexers of the target languages' comment and string syntax; path trees exhausted",
+    "bounded symbolic execution (CrossHair/z3) of the docstring / documentation-comment wrappers of python, java, typescript, cpp and golang and of the C# documentation-comment renderer on a symbolic description text, against lexers of the target languages' comment / string syntax and of XML fragments; path trees exhausted",
     "Each wrapper through which description text reaches a generated file is executed on a symbolic Stripped text (all of Unicode, bounded length); a small lexer of the target language decides whether "
-    "the output is exactly one docstring / one comment block (no early close, no line outside the comment, no line splice); witnesses are replayed through compile(), g++ -fsyntax-only, node --check and javac.",
-    "Only the comment/docstring wrappers are decided, not whole generated files (C19 covers literals); C# XML documentation and the reST rendering before the wrappers are outside. One open known finding (C++ line splice).")
+    "the output is exactly one docstring / one comment block (no early close, no line outside the comment, no line splice); witnesses are replayed through compile(), g++ -fsyntax-only, node --check, javac and expat. C#: the real _generate_summary_remarks runs on node trees holding the symbolic text; "
+    "every line must be a '///' line and the content a well-formed XML fragment.",
+    "Only the comment/docstring wrappers and the C# documentation text path are decided, not whole generated files (C19 covers literals); the reST rendering before them (docutils) is outside. Two open known findings (C++ line splice; non-XML characters in C# documentation comments).")
 
 add("C21", "model_checking",
     "bounded symbolic execution (CrossHair/z3) of every target's naming functions on a symbolic pair of different identifiers (collision search); each colliding path yields a witness which is decided on a real meta-model by the real front end and the real target verification",
